@@ -130,7 +130,6 @@ theorem edit_InvT (sem : Sem Text) (st st' : St Text) (v : Nat) (t : Text)
           rcases hh i hi' with h1 | h1
           · exact Or.inl h1
           · refine Or.inr (fun tk htk => h1 tk ?_)
-            simp only [hf, Bool.false_eq_true, if_false] at htk
             rw [List.getElem?_append_left hi'] at htk
             exact htk
         · intro hc
@@ -359,7 +358,7 @@ theorem edit_InvF (sem : Sem Text) (st st' : St Text) (v : Nat) (t : Text) (lo :
         refine ⟨?_, by simp [syncPub, hf]⟩
         intro tk htk
         have := hver tk htk; omega
-      · simp only [hf, if_false, fixedBoth]
+      · simp only [hf, fixedBoth]
         refine ⟨st.tasks, rfl, ?_, ?_⟩
         · intro tk htk
           have := hver tk htk; omega
